@@ -471,12 +471,47 @@ def _rle(rounds):
     return out
 
 
+WIDE_ON = ('send "ON %s\\n"\n\t\texpect "([^ \\n]+) ([^\\n]*)\\n"\n\t\t\tsetresult $1 $2 success="^OK$"\n\t\texpect "done\\n"')
+WIDE_STATUS = ('send "STATUS %s\\n"\n\t\texpect "([^ \\n]+) ([^\\n]*)\\n"\n\t\t\tsetplugstate $1 $2 on="^ON$" off="^OFF$"\n\t\texpect "done\\n"')
+WIDE_TEMP = ('send "STATUS_TEMP %s\\n"\n\t\texpect "([^ \\n]+) ([^\\n]*)\\n"\n\t\t\tsetplugstate $1 $2\n\t\texpect "done\\n"')
+HOSTILE_TEXT = ["%s%s%s%s%s%s", "%n%n%n%n", "100%", "%d %x %p", "%999999999s", "ERR %s", "%%%", "%c%c%c%n", "a%-08.3d", "%ls", "\\x\x7f%s", "%1$s%2$n", "OK%s"]
+
+
+def hostile_text_stage(ctx, V, exe, n):
+    """the text a device sends for a plug - result text of a power command (309 diagnostic), state / temperature text of a query (303 value,
+    telemetry) - is DATA wherever it goes: scripts whose capture groups admit any byte but newline, devices that answer with printf
+    conversions and other awkward text.  The daemon must survive, keep to the protocol and shut down cleanly."""
+    import random, pmgen
+    scs = []
+    for i in range(n):
+        rng = random.Random(ctx.seed * 86028121 + i)
+        cfg = pmgen.Config()
+        d0 = pmgen.Dev("d0", ["login", "on", "off", "status", "status_temp"], hardwired=["p1", "p2"], transport=rng.choice(["pipe", "tcp"]), timeout=3.0)
+        d0.bodies["on"] = WIDE_ON; d0.bodies["off"] = WIDE_ON.replace("ON %s", "OFF %s"); d0.bodies["status"] = WIDE_STATUS; d0.bodies["status_temp"] = WIDE_TEMP
+        cfg.devs.append(d0); cfg.node_lines.append(("n0,n1", "d0", "p1,p2")); cfg.truth = {"d0": {"p1": "n0", "p2": "n1"}}
+        S = [("connect",), ("wait", 0)]
+        if rng.random() < 0.5: S += [("send", 0, b"telemetry\r\n"), ("wait", 0)]
+        if rng.random() < 0.3: S += [("send", 0, b"exprange\r\n"), ("wait", 0)]
+        for _ in range(rng.randint(2, 5)):
+            S.append(("verdict", "d0", rng.choice(["p1", "p2"]), rng.choice(HOSTILE_TEXT)))
+            S += [("send", 0, (rng.choice(["on n0", "off n[0-1]", "status", "status n1", "temp", "temp n0", "on n1"]) + "\r\n").encode()), ("wait", 0)]
+        scs.append(pmcheck.Scenario(cfg, S, dict(style="c07-hostile-text", ncli=1)))
+    pmcheck.run_batch(ctx, V, exe, scs, ["alive", "wedge", "protocol"], "c07h")
+    V.count("hostile-text-histories", len(scs))
+
+
 def run(ctx, V):
+    exe = _run(ctx, V)
+    hostile_text_stage(ctx, V, exe, 30 if ctx.tier == "quick" else 600)
+
+
+def _run(ctx, V):
     exe = run_devlayer(ctx, V, ("fd", "login", "count"), 260, 6000, ["alive", "wedge"], ("faults", "mixed"), 260,
                        "C07: a non-zero exit of the harness (assert, ASan, UBSan) or an OUTCOME of the model is a violation `daemon-aborts`.")
     run_telnet_floods(ctx, V, exe, 12 if ctx.tier == "quick" else 200)
     V.rule += (" + telnet reply floods on pmsim (tcp device whose peer stops reading / reads slowly and sends 40-128 KiB of IAC DO|WILL|DONT|WONT <opt>, then the "
                "login prompt: a send statement starts on a dev->to full of option replies; corpus/C07 holds the F38 history) - the daemon must survive and shut down cleanly")
+    return exe
 
 
 def replay(ctx, V, path):
